@@ -56,7 +56,18 @@ def fillarg(f):
 def do_query(iso, q):
     """returns (class, value-or-exception-class)"""
     if q["op"] == "CONVERT":
-        iso.convert_pressure(unit_to="kPa" if iso.pressure_unit == "bar" else "bar")
+        # any permanent conversion must drop both cached interpolators; rotate over the kinds
+        kind = q.get("kind", "pressure")
+        if kind == "pressure":
+            iso.convert_pressure(unit_to="kPa" if iso.pressure_unit == "bar" else "bar")
+        elif kind == "loading":
+            iso.convert_loading(unit_to="mol" if iso.loading_unit == "mmol" else "mmol")
+        elif kind == "material":
+            iso.convert_material(unit_to="kg" if iso.material_unit == "g" else "g")
+        elif kind == "loading_basis":
+            iso.convert_loading(basis_to="mass" if iso.loading_basis == "molar" else "molar", unit_to="mg" if iso.loading_basis == "molar" else "mmol")
+        else:
+            iso.convert(pressure_unit="kPa" if iso.pressure_unit == "bar" else "bar", loading_unit="mol" if iso.loading_unit == "mmol" else "mmol")
         return ("none", None)
     x = xval(iso, q)
     try:
@@ -102,7 +113,7 @@ def all_queries():
 
 def qname(q):
     if q["op"] == "CONVERT":
-        return "CONVERT"
+        return "CONVERT:" + q.get("kind", "pressure")
     return f"{q['op']}({q['b']},{q['k']},{q['f']},{q['x']})"
 
 
@@ -159,6 +170,8 @@ def main(tier, seed):
             hist = []
             for st in states[1:]:
                 q = tlc.parse_flat_record(st["lastq"])
+                if q["op"] == "CONVERT":
+                    q["kind"] = ("pressure", "loading", "material", "loading_basis", "combined")[(traces + len(hist)) % 5]
                 exp = st["fresh"].strip().strip('"')
                 if q["op"] != "CONVERT" and table[qname(q)] != exp:
                     raise MachineryError("oracle table and simulated behaviour disagree on " + qname(q))
@@ -210,13 +223,16 @@ def main(tier, seed):
                     pair(q1, q2)
         for _ in range(600):
             pair(rng.choice(qs), rng.choice(qs))
+    kinds = ("pressure", "loading", "material", "loading_basis", "combined")
     for q1 in (qs if thorough else rng.sample(qs, 40)):
-        for q2 in rng.sample(qs, 6):
+        for j, q2 in enumerate(rng.sample(qs, 6) + [dict(q1, x="interior"), dict(q1, x="last")]):
+            # (the last two repeat the first query's key: a cache that survived the conversion would be hit)
+            cv = {"op": "CONVERT", "kind": kinds[(j + npairs) % len(kinds)]}
             iso = build()
             do_query(iso, q1)
-            do_query(iso, {"op": "CONVERT"})
-            step_check(run, iso, q2, [q1, {"op": "CONVERT"}], table.get(qname(q2)))
-            run.count(("pair-convert", qname(q1), qname(q2)))
+            do_query(iso, cv)
+            step_check(run, iso, q2, [q1, cv], table.get(qname(q2)))
+            run.count(("pair-convert", qname(q1), cv["kind"], qname(q2)))
             npairs += 1
     run.add("traces_validated_against_impl", npairs)
     run.set(query_pairs=npairs, query_alphabet=len(qs))
